@@ -8,7 +8,8 @@ from ..probe import read
 
 ID = "C02"
 TITLE = "Bases and margins count exactly the respondents eligible for the denominator"
-TEMPLATES = cases.TEMPLATES_1D + cases.TEMPLATES_2D + cases.TEMPLATES_3D
+# a numeric-array strand is the only non-MR strand whose rows have bases of their own
+TEMPLATES = cases.TEMPLATES_1D + cases.TEMPLATES_2D + cases.TEMPLATES_3D + ["numarr"] * 4
 RULE = (
     "W1 synthetic surveys, %d templates round-robin x weighting mode x {no insertions, sum "
     "subtotals, sum+difference subtotals}; per-item missingness differs by item, members of a "
@@ -29,7 +30,7 @@ REQUIRED_REACH = [
     "bases2d", "margins", "table_scalar", "ranges", "mask", "strand_bases",
     "class:pair=CATxCAT", "class:pair=CATxMR", "class:pair=MRxCAT", "class:pair=MRxMR",
     "class:pair=ARRxCAT", "class:pair=CATxARR", "class:pair=ARRxMR", "class:pair=MRxARR",
-    "class:ins=sum", "class:ins=diff",
+    "class:ins=sum", "class:ins=diff", "class:numarr_strand_mixed_mask",
 ]
 BATCH = 60
 RULE = RULE + corpus.RULE_SUFFIX + w4.RULE_SUFFIX
@@ -240,6 +241,8 @@ def _strand(res, L, part, msize):
                  np.array([min(vals), max(vals)]))
     exp = np.array([base_of(e, False) for e in order]) < msize
     got = read(part, "min_base_size_mask")
+    if exp.any() and not exp.all() and o.facets[0][0] == "numarr":
+        res.classes.append("numarr_strand_mixed_mask")
     res.check("mask", got.ok and np.array_equal(np.asarray(got.value, dtype=bool), exp),
               "strand/mask", {"threshold": msize, "got": repr(got)[:300],
                               "exp": exp.tolist()})
